@@ -707,8 +707,8 @@ struct AdfFile * adfFileOpen ( struct AdfVolume * const vol,
         return NULL;
     }
 
-    if ( modeWrite && vol->dev->readOnly ) {
-        (*adfEnv.wFct)("adfFileOpen : device is mounted 'read only'");
+    if ( modeWrite && ( vol->dev->readOnly || vol->readOnly ) ) {
+        (*adfEnv.wFct)("adfFileOpen : device or volume is mounted 'read only'");
         return NULL;
     }
 
